@@ -242,7 +242,14 @@ class ProgGen:
             if r.random() < 0.4:
                 # a parameter read as a direct operand (it may be null - a missing argument - while a global of the same name is not)
                 body.append(log_stmt(('bin', '+', sq(pname + '?'), ('group', ('bin', r.choice(['==', '!=', '<']), ('var', pname), r.choice([('var', 'null'), num(1)]))))))
+        if last and r.random() < 0.6:
+            # the "..." array is changed in place (and sometimes handed back): every call gets its own array, also a call that passes no
+            # variadic arguments at all
+            body.append(('expr', call('arrayPush', ('var', params[-1]), self.expr(fctx, 'num', 1))))
+            body.append(log_stmt(call('arrayLength', ('var', params[-1]))))
         body += self.block(fctx, min(depth - 1, 2), r.randint(1, 4))
+        if last and r.random() < 0.3:
+            body.append(('return', ('var', params[-1])))
         if saved_funcs is not None:
             self.funcs = saved_funcs
         self.funcs.append((name, params, last, recursive))
@@ -252,7 +259,16 @@ class ProgGen:
         types = dict(self.global_types)
         ctx = {'types': types, 'loops': [], 'infunc': False, 'level': 0}
         depth = min(self.max_depth, max(1, size))
-        return self.block(ctx, depth, self.r.randint(2, 3 + size))
+        prog = self.block(ctx, depth, self.r.randint(2, 3 + size))
+        if self.r.random() < 0.03:
+            # several hundred un-nested calls of a function that leaves through a bare `return` (nothing may accumulate per call)
+            n = self.r.choice([260, 300, 520])
+            prog += [('func', 'bareRet', ['aa'], False, [('if', [(('bin', '>', ('var', 'aa'), num(1)), [('return', None)])], None), ('return', ('var', 'aa'))]),
+                     ('assign', 'cLong', num(0)),
+                     ('while', ('bin', '<', ('var', 'cLong'), num(n)), [('assign', 'cLong', ('bin', '+', ('var', 'cLong'), num(1))),
+                                                                        ('assign', 'rLong', call('bareRet', ('var', 'cLong')))]),
+                     log_stmt(('bin', '+', sq('long loop '), ('var', 'cLong')))]
+        return prog
 
 
 # ---- printing ---------------------------------------------------------------------------------------------------
